@@ -158,7 +158,15 @@ class Model:
             if p.end != "return":
                 raise U("C06.display-model", f"Display for {adt} can diverge", fn)
             conds = []
+            failed_write = False
             for (b, t, lab, ty, others) in p.conds:
+                if t[0] == "discr" and self._is_write_result(t[1]):
+                    # `write..(..)?`: the branch on a write's Result is error plumbing; the text is what the path writes when
+                    # every write succeeds (label 0 = Ok / Continue), the early-return paths are prefixes of it
+                    ok_arm = (lab == 0) or (lab == "otherwise" and 0 not in (others or []))
+                    if not ok_arm:
+                        failed_write = True
+                    continue
                 if t[0] == "discr":
                     conds.append((t[1], "variant", lab if lab != "otherwise" else ("not", tuple(others)), fn.blocks[b]["term"]))
                 elif ty == "bool":
@@ -166,6 +174,8 @@ class Model:
                     conds.append((t, "bool", truth, None))
                 else:
                     raise U("C06.display-model", f"unexpected switch in Display for {adt}: {P.show(t)[:60]}", fn)
+            if failed_write:
+                continue
             emits = []
             for b in p.blocks:
                 t = fn.blocks[b]["term"]
@@ -205,9 +215,14 @@ class Model:
                             ga = [g for g in cal.get("generic_args", []) if not g.startswith("'")]
                             ty = ga[0] if ga else "?"
                             emits.append(("arg", ty.lstrip("&"), av[2][0]))
-                elif cp.startswith("std::fmt::Formatter") and nm == "write_str":
+                elif cp.startswith("std::fmt::Formatter") and nm in ("write_str", "write_char"):
                     s = P.strip(pr.operand(t["args"][1]))
-                    emits.append(("lit", s[1] if s[0] == "str" else None))
+                    ch = self._char_of_enum(s, fn)
+                    if ch is not None:
+                        # f.write_str(char::from(x).encode_utf8(..)) / f.write_char(char::from(x)): exactly the enum's character
+                        emits.append(("char-of", ch[0], ch[1]))
+                    else:
+                        emits.append(("lit", s[1] if s[0] == "str" else None))
                 elif nm == "fmt" and (c.get("trait") or "").endswith("fmt::Display") and len(t["args"]) == 2 and \
                         P.strip(pr.operand(t["args"][1])) == ("param", 2):
                     ga = [g for g in c.get("generic_args", []) if not g.startswith("'")]
@@ -215,6 +230,31 @@ class Model:
             out.append((conds, emits, p))
         self.cache[adt] = (out, fn)
         return out, fn
+
+    @staticmethod
+    def _is_write_result(t):
+        s = P.strip(t, calls=False)
+        if s[0] == "call" and s[1].endswith("::branch") and len(s[2]) == 1:
+            s = P.strip(s[2][0], calls=False)
+        if s[0] != "call":
+            return False
+        nm = s[1].rsplit("::", 1)[-1]
+        return (s[1].startswith("std::fmt::Formatter") and nm in ("write_str", "write_fmt", "write_char", "pad")) or \
+            (nm == "fmt" and "std::fmt::Display" in s[1]) or (nm == "fmt" and s[1].startswith("<") and " as std::fmt::" in s[1])
+
+    def _char_of_enum(self, s, fn):
+        """(adt, term) when s is `char::from(x)` or `char::from(x).encode_utf8(..)` with x a Rank / Suit value"""
+        s = P.strip(s, calls=False)
+        if s[0] == "call" and s[1].rsplit("::", 1)[-1] == "encode_utf8" and s[2]:
+            s = P.strip(s[2][0], calls=False)
+        if not (s[0] == "call" and len(s[2]) == 1):
+            return None
+        for adt in (RANK, SUIT):
+            tgt = self.F.impl_fn(f"std::convert::From<&{adt}>", "char", "from")
+            byv = self.F.impl_fn(f"std::convert::From<{adt}>", "char", "from")
+            if s[1] in (tgt.path, byv.path):
+                return adt, s[2][0]
+        return None
 
     def expand(self, adt, self_term, depth=0):
         """alternatives of printing a value of type adt held in self_term: [(conds[(path, variant)], atoms, extra_conds)]
@@ -273,6 +313,8 @@ class Model:
                     if e[1] is None:
                         raise U("C06.display-model", "non-literal text piece", fn)
                     partial = [(c, a + [("lit", ch) for ch in e[1]]) for (c, a) in partial]
+                elif e[0] == "char-of":
+                    partial = [(c, a + [("rank" if e[1] == RANK else "suit", norm(subst(e[2], self_term)))]) for (c, a) in partial]
                 elif e[0] == "arg":
                     sub = self.expand(e[1], subst(e[2], self_term), depth + 1)
                     partial = [(c + c2 + x2, a + a2) for (c, a) in partial for (c2, a2, x2) in sub]
